@@ -112,6 +112,10 @@ def run(rep, tier):
     def is_N2(n):
         if n.get("k") == "member" and n.get("field") == T + "Histogram::options_t::n_":
             return True
+        if n.get("k") == "ref" and n.get("dk") == "local" and "const" in (n.get("type") or "") and n.get("decl") in pd.decls and pd.decls[n["decl"]].get("init") is not None:
+            return is_N2(unwrap(pd.decls[n["decl"]]["init"]))
+        if n.get("k") == "cast" and n.get("sub") is not None:
+            return is_N2(unwrap(n["sub"]))
         if n.get("k") == "mcall" and (n.get("callee") or "").endswith("::size") and unwrap(n["obj"]).get("field") == T + "Histogram::pdf_":
             return True
         return False
@@ -191,9 +195,24 @@ def run(rep, tier):
     fpd = Fold(pd).run()
     cpd = getattr(fpd, "conds", {})
     KMIN, KMAX = ("field", "min_"), ("field", "max_")
-    lp = [l for l in getattr(fpd, "loops", []) if l.get("var") is not None and KMIN in l.get("step", {}) and KMAX in l.get("step", {})
-          and l["var"] in getattr(l["step"][KMIN], "free_symbols", set()) | getattr(l["step"][KMAX], "free_symbols", set())]
     outer = [l for l in getattr(fpd, "loops", []) if KMIN in l.get("init", {}) and KMAX in l.get("init", {})]
+    lp, kmn, kmx = [], KMIN, KMAX
+    for l in getattr(fpd, "loops", []):
+        if l.get("var") is None or not l.get("step"):
+            continue
+        if KMIN in l["step"] and KMAX in l["step"]:
+            cand = (KMIN, KMAX)
+        elif outer:
+            # the scan may live in a helper that receives min_/max_ by reference: its loop carries the parameters, started from the fields' current values
+            o_ = outer[0]
+            a_ = [k for k, v in l["init"].items() if v == o_["syms"][KMIN]]
+            b_ = [k for k, v in l["init"].items() if v == o_["syms"][KMAX]]
+            cand = (a_[0], b_[0]) if len(a_) == 1 and len(b_) == 1 else None
+        else:
+            cand = None
+        if cand and l["var"] in getattr(l["step"][cand[0]], "free_symbols", set()) | getattr(l["step"][cand[1]], "free_symbols", set()):
+            lp.append(l)
+            kmn, kmx = cand
     rep.floor("R13.4", len(lp), 1, "loops updating the running extrema")
     if lp and outer:
         def auto_orc(lf):
@@ -210,22 +229,22 @@ def run(rep, tier):
                    "range") if (fld == "max_" and seed == "min()") else "running %s is seeded with %s in automatic mode" % ("minimum" if fld == "min_" else "maximum", seed)
             rep.check(seed in good, "R13.4", "seed|Histogram::ProcessData|" + fld, "%s seeded with %s" % (fld, seed), bad, pd.loc(), sample=True)
         l = lp[0]
-        v_, mn_, mx_ = l["var"], l["syms"][KMIN], l["syms"][KMAX]
+        v_, mn_, mx_ = l["var"], l["syms"][kmn], l["syms"][kmx]
         from sympy.core.function import AppliedUndef
         badu = None
         for rv, rmn, rmx in ((5, 10, 0), (5, 3, 7), (1, 3, 7), (9, 3, 7), (3, 3, 7), (7, 3, 7), (-2, -1, -1), (4, 4, 4)):
             sub = {v_: sp.Integer(rv), mn_: sp.Integer(rmn), mx_: sp.Integer(rmx)}
             got = {}
-            for key in (KMIN, KMAX):
+            for key in (kmn, kmx):
                 st_ = l["step"][key]
                 st_ = _res(st_, lambda cs: _dec(cpd[cs], sub, None, None, cpd) if cs in cpd else None) if hasattr(st_, "args") else st_
                 if hasattr(st_, "xreplace"):
                     st_ = st_.xreplace(sub)
                     st_ = st_.replace(lambda x: isinstance(x, AppliedUndef) and str(x.func) in ("min", "max"), lambda x: (sp.Min if str(x.func) == "min" else sp.Max)(*x.args))
                 got[key] = st_
-            if got[KMIN] != min(rv, rmn) or got[KMAX] != max(rv, rmx):
+            if got[kmn] != min(rv, rmn) or got[kmx] != max(rv, rmx):
                 badu = "for a sample %d with running (min, max) = (%d, %d) the step gives (%s, %s), required (%d, %d): a sample that lowers the minimum %s" % (
-                    rv, rmn, rmx, got[KMIN], got[KMAX], min(rv, rmn), max(rv, rmx), "is not considered for the maximum (the first sample always is one)" if got[KMAX] != max(rv, rmx) else "is lost")
+                    rv, rmn, rmx, got[kmn], got[kmx], min(rv, rmn), max(rv, rmx), "is not considered for the maximum (the first sample always is one)" if got[kmx] != max(rv, rmx) else "is lost")
                 break
         rep.check(badu is None, "R13.4", "update|min_max_", "one step: (min, max) -> (min(v, min), max(v, max))", "Histogram::ProcessData: " + str(badu), pd.loc(l["node"]), sample=True)
 
